@@ -322,6 +322,20 @@ def state_and_sizes_bits(ctx):
         ctx.check(R2, ok, 'dispatch', 'the decoder must dispatch on the top two bits of the state byte: 11 -> one-trans-next, 10 -> one-trans, else any-trans (%s)' % {k: v[0] for k, v in seen.items()}, fn=f)
         ok_addr = all(v[2] == ('param', f.local_name(2), 2) for v in seen.values())
         ctx.check(R2, ok_addr, 'dispatch-byte', 'the state byte must be the byte AT the node address', fn=f)
+        # address 0 (and only it) is the implicit empty final node: the writer's shortcut (R12.1) maps exactly that node to 0
+        ef = []
+        for p in explore(f, max_visits=1):
+            if p.end != 'return':
+                continue
+            rv = p.ret()
+            if rv[0] == 'agg' and rv[1].endswith('::EmptyFinal'):
+                d = [x for x in p.decisions if x[2][0] == 'bin' and x[2][1] in ('Eq', 'Ne') and any(y == ('param', f.local_name(2), 2) for y in walk(x[2]))
+                     and any(y in (('citem', 'raw::EMPTY_ADDRESS'), ('const', 0)) for y in walk(x[2]))]
+                ef.append(bool(d) and ((d[-1][2][1] == 'Eq') == (d[-1][3] == 1)))
+        if ef:
+            ctx.check(R2, all(ef), 'dispatch-empty', 'the implicit empty final node must be decoded exactly for address 0 (EMPTY_ADDRESS)', fn=f)
+        else:
+            ctx.undecided(R2, 'dispatch-empty', 'no path of the decoder produces the empty final node in a recognised form', fn=f)
     common_input_helpers(ctx, R2)
 
 
